@@ -10,6 +10,7 @@ import re
 import shutil
 
 from lib import vlib
+from engines import kv
 from lib.vlib import Infra
 
 SPEC = os.path.join(vlib.SPECS, "filesave")
@@ -171,6 +172,7 @@ def run(res, prop, tier, seed, work, replay=None):
             raise Infra("FileSave.tla finds an unrecoverable crash point in the recorded %s save but every materialised image loaded fine: the model misreads the trace\n%s" % (kind, t["tail"][-600:]))
         samples.append({"kind": kind, "recorded_operations": [("%s %s%s %s" % (o["op"], o["file"], ("->" + o["to"]) if o["to"] else "", o["n"] or "")).strip() for o in ops],
                         "crash_points": len(points), "model_says_every_crash_point_recovers": spec_says_safe})
+    kv.run(res, prop, tier, seed, work)      # the storage manager whose every change ends in the save path checked above
     res.coverage.update({
         "evaluations": len(images), "distinct_nontrivial": len({(r["kind"], r["pos"], r["k"]) for r in images}),
         "rule": "one crash image per crash point of the recorded save (after each file-system operation, and 1 byte / half / all-but-one byte into each write), "
